@@ -10,7 +10,7 @@ from __future__ import annotations
 from dataclasses import dataclass, field
 from datetime import datetime
 from enum import Enum
-from typing import List, Optional, Type
+from typing import Set, List, Optional, Type
 
 from sqlalchemy import types, TypeDecorator
 
@@ -111,6 +111,12 @@ class OAltChild(OAltParent):
     favourite: Optional[OItem] = None
 
 
+@dataclass(eq=False)
+class OAltGrand(OAltChild):
+    """TWO levels below the alternatively mapped parent"""
+    extra: int = 0
+
+
 @dataclass
 class OAltParentMapping(AlternativeMapping[OAltParent]):
     derived: str
@@ -169,6 +175,14 @@ class OTeam:
     """alternatively mapped; many-to-many with the normally mapped OMember in both directions"""
     name: str = ""
     members: List[OMember] = field(default_factory=list)
+    rival: Optional[OTeam] = None
+
+
+@dataclass(eq=False)
+class OBag:
+    """a SET of mapped objects"""
+    label: str = ""
+    things: Set[OItem] = field(default_factory=set)
 
 
 @dataclass(eq=False)
@@ -181,15 +195,16 @@ class OMember:
 class OTeamMapping(AlternativeMapping[OTeam]):
     name: str
     members: List[OMember]
+    rival: Optional[OTeam]
 
     @classmethod
     def create_instance(cls, obj: OTeam):
-        return cls(obj.name, obj.members)
+        return cls(obj.name, obj.members, obj.rival)
 
     def create_from_dao(self) -> OTeam:
-        return OTeam(self.name, self.members)
+        return OTeam(self.name, self.members, self.rival)
 
 
-CLASSES = [OItem, OSubItem, OHolder, OSubHolder, OVec, OCarrier, OAltParent, OAltChild, OAltGroup, OPoint, OPoly, ODrawing, OTeam, OMember]
+CLASSES = [OItem, OSubItem, OHolder, OSubHolder, OVec, OCarrier, OAltParent, OAltChild, OAltGrand, OAltGroup, OBag, OPoint, OPoly, ODrawing, OTeam, OMember]
 ALTERNATIVE_MAPPINGS = [OVecMapping, OAltParentMapping, OPolyMapping, OTeamMapping]
 TYPE_MAPPINGS = {OMoney: OMoneyType}
